@@ -121,9 +121,9 @@ def rule_position_semantic(src, rep, counts):
     it = new_interp(src)
     f = src.func("window", "CursorAwareWindow.get_cursor_position")
     jobs = []
-    for (ri, rp), eight, (ai, ah), af, errs, cb, enc in itertools.product(enumerate(REPORTS), (False, True), enumerate(AHEAD), AFTER, (0, 1, 3),
+    for (ri, rp), eight, (ai, ah), af, errs, cb, enc in itertools.product(enumerate(REPORTS), (False, True), enumerate(AHEAD), AFTER, (0, 1, 3, "2nd", "2nd+5th", "last"),
                                                                          (True, False), ("utf-8", "latin-1")):
-        if rep.tier == "quick" and (ri + ai + errs + (1 if eight else 0) + (1 if cb else 0) + len(af) + len(enc)) % 4:
+        if rep.tier == "quick" and (ri + ai + {0: 0, 1: 1, 3: 3, "2nd": 2, "2nd+5th": 5, "last": 6}[errs] + (1 if eight else 0) + (1 if cb else 0) + len(af) + len(enc)) % 4:
             continue
         jobs.append((rp, eight, ah, af, errs, cb, enc))
 
@@ -135,9 +135,15 @@ def rule_position_semantic(src, rep, counts):
         except AnalysisError as e:
             return ("error", str(e))
         scr.report, scr.eight_bit = rp, eight
-        rig.ahead, rig.after, rig.read_errors = list(ah), list(af), errs
+        rig.ahead, rig.after = list(ah), list(af)
+        if isinstance(errs, int):
+            rig.read_errors = errs
+        else:
+            total = len(ah) + len(("x" if eight else "xx") + "%d;%dR" % rp)
+            rig.fail_reads = {"2nd": {2}, "2nd+5th": {2, 5}, "last": {total}}[errs]
         desc = "input %r, report %s%d;%dR, then %r%s%s, stream encoding %s" % (
-            ah, "0x9b " if eight else "ESC[", rp[0], rp[1], af, "; %d read(s) fail with OSError first" % errs if errs else "",
+            ah, "0x9b " if eight else "ESC[", rp[0], rp[1], af,
+            ("; %d read(s) fail with OSError first" % errs if errs else "") if isinstance(errs, int) else "; the %s read fails with OSError" % errs,
             "" if cb else "; no extra_bytes_callback", enc)
         try:
             r = rig.call("get_cursor_position")
